@@ -10,10 +10,10 @@ import (
 	"encoding/json"
 	"fmt"
 	"os"
-	"strconv"
 	"os/exec"
 	"runtime"
 	"sort"
+	"strconv"
 	"strings"
 	"sync"
 	"time"
@@ -39,10 +39,11 @@ type H struct {
 	wg           sync.WaitGroup
 	hints        map[string]int
 	// crash replay
-	windowOpen bool
-	hits       int
-	crashAt    int
-	acked      bool
+	windowOpen   bool
+	hits         int
+	crashAt      int
+	acked        bool
+	crashCommits bool
 }
 
 type Record struct {
@@ -427,7 +428,7 @@ func (h *H) CrashWindowStart() {
 	h.crashAt = int(h.vals["crashpos"])
 	h.windowOpen = true
 	verifhook.SetCallback(func(name string) {
-		if !h.windowOpen || strings.HasPrefix(name, "lock:") || strings.HasPrefix(name, "txn:") {
+		if !h.windowOpen || strings.HasPrefix(name, "lock:") || strings.HasPrefix(name, "txn:") || (strings.HasPrefix(name, "commit:") && !h.crashCommits) {
 			// lock:<file>:<line> and txn:<file>:<line> points exist only in the instrumented replay build
 			// (scheduling points); they are not crash boundaries of the engine
 			return
@@ -438,6 +439,13 @@ func (h *H) CrashWindowStart() {
 		h.hits++
 	})
 }
+
+// CrashAtCommits makes every Badger commit statement of /repo code
+// (db.Update(..), txn.Commit()) a crash candidate in addition to the
+// verifhook.Point boundaries: natively the replay build has
+// verifhook.Point("commit:<file>:<line>") inserted before those statements.
+// Call it before CrashWindowStart.
+func (h *H) CrashAtCommits() { h.crashCommits = true }
 
 // CrashAndRecover kills the process at the chosen boundary (child) or runs
 // the child and continues with the recovery part (parent).
